@@ -363,8 +363,9 @@ func (o *oracle) closure(key []string) (map[string]*file, [][]string) {
 	return files, keys
 }
 
-// danglingTsref: does a type-set file among `files` refer (references => …) to a name whose effective definition is not a
-// good type-set file?  badType: … to a name that has a good file which defines something that is no type set
+// danglingTsref: does a type-set file among `files` refer (references => …) to a name that cannot be had — no loadable
+// file answers it, or its definition leads back to the referring file (UNRESOLVED)?  badType: … to a name whose loadable
+// file defines something that is no type set (BAD_TYPE; the two codes are not interchangeable)
 func (o *oracle) danglingTsref(files map[string]*file, badType bool) bool {
 	for _, f := range files {
 		for _, r := range f.body.tsrefs {
@@ -384,10 +385,10 @@ func (o *oracle) danglingTsref(files map[string]*file, badType bool) bool {
 				if eff == nil && len(o.providers(rk)) > 0 {
 					return true // a member of another type set
 				}
-			} else if eff == nil || eff.f.body.kind != "typeset" {
-				return true
+			} else if eff == nil {
+				return true // UNRESOLVED: nothing loadable answers the name (a good file that defines no type set is BAD_TYPE)
 			} else if cl, _ := o.closure(rk); cl[o.paths[f]] != nil {
-				return true // the referenced type set leads back to the referring one: it cannot be had while that one is loaded
+				return true // the referenced definition leads back to the referring one: it cannot be had while that one is loaded
 			}
 		}
 	}
